@@ -1139,7 +1139,7 @@ func ringScenario(N int, moduli []uint64, cls string) engine.Scenario {
 				}
 			}
 			// EvalPolyScalar: p(x) = p1 + p2·x + p1·x²
-			for _, x := range []uint64{0, 1, 2, moduli[0] - 1} {
+			for _, x := range []uint64{0, 1, 2, moduli[0] - 1, 1<<32 + 1, 1<<40 + 3, 1<<63 + 5, ^uint64(0)} {
 				o = fresh()
 				r.EvalPolyScalar([]ring.Poly{p1, p2, p1}, x, o)
 				if !check("EvalPolyScalar", o, func(i int, q uint64, j int) uint64 {
@@ -1328,6 +1328,111 @@ func ringqpScenario(N int, qs, ps []uint64, cls string) engine.Scenario {
 				r.INTTLazy(o, o)
 				if !chk("INTTLazy(NTTLazy)", o, func(q, ri, x, y, ac uint64) uint64 { return x }, none) {
 					return
+				}
+				// EvalPolyScalar: a + b·x + a·x² + b·x³ at points whose powers exceed 2^64, into a receiver with history
+				for _, x := range []uint64{0, 1, 2, 1<<32 + 1, 1<<40 + 3, 1<<63 + 5, ^uint64(0)} {
+					o = *acc.CopyNew()
+					r.EvalPolyScalar([]ringqp.Poly{a, b, a, b}, x, o)
+					if !chk("EvalPolyScalar", o, func(q, ri, u, v, ac uint64) uint64 {
+						xq := x % q
+						h := v
+						h = ref.AddMod(u, mm(xq, h, q), q)
+						h = ref.AddMod(v, mm(xq, h, q), q)
+						return ref.AddMod(u, mm(xq, h, q), q)
+					}, none) {
+						return
+					}
+				}
+				// automorphisms: the wrapper must act on the Q and on the P part like the ring-level operation
+				for _, g := range []uint64{3, 5, uint64(2*N - 1), uint64(2*N + 5)} {
+					want := r.NewPoly()
+					r.RingQ.Automorphism(a.Q, g, want.Q)
+					if r.RingP != nil {
+						r.RingP.Automorphism(a.P, g, want.P)
+					}
+					o = *acc.CopyNew()
+					r.Automorphism(a, g, o)
+					evals++
+					if !r.Equal(o, want) {
+						c.Fail("C01/ringqp/Automorphism", "(lq=%d,lp=%d) g=%d differs from the ring-level automorphism of the parts", lq, lp, g)
+						return
+					}
+					idx, err := ring.AutomorphismNTTIndex(N, uint64(2*N), g)
+					if err != nil {
+						c.Fail("C01/ringqp/AutomorphismNTTIndex", "%v", err)
+						return
+					}
+					r.RingQ.AutomorphismNTTWithIndex(a.Q, idx, want.Q)
+					if r.RingP != nil {
+						r.RingP.AutomorphismNTTWithIndex(a.P, idx, want.P)
+					}
+					o = *acc.CopyNew()
+					r.AutomorphismNTT(a, g, o)
+					o2 := *acc.CopyNew()
+					r.AutomorphismNTTWithIndex(a, idx, o2)
+					evals += 2
+					if !r.Equal(o, want) || !r.Equal(o2, want) {
+						c.Fail("C01/ringqp/AutomorphismNTT", "(lq=%d,lp=%d) g=%d differs from the ring-level permutation of the parts", lq, lp, g)
+						return
+					}
+					o = *acc.CopyNew()
+					r.AutomorphismNTTWithIndexThenAddLazy(a, idx, o)
+					r.Reduce(o, o)
+					r.Add(want, acc, want)
+					evals++
+					if !r.Equal(o, want) {
+						c.Fail("C01/ringqp/AutomorphismNTTWithIndexThenAddLazy", "(lq=%d,lp=%d) g=%d", lq, lp, g)
+						return
+					}
+				}
+				// RNS scalars over QP (layout Q||P is only defined on the full chain)
+				if lq == len(qs)-1 && lp == len(ps)-1 {
+					all := append(append([]uint64{}, qs...), ps...)
+					for _, v := range []uint64{0, 1, 2, 1<<32 + 1, 1<<63 + 5, ^uint64(0)} {
+						s1 := r.NewRNSScalarFromUInt64(v)
+						s2 := r.NewRNSScalarFromUInt64(12345)
+						so := r.NewRNSScalar()
+						if len(s1) != len(all) || len(so) != len(all) {
+							c.Fail("C01/ringqp/NewRNSScalar/length", "len=%d,%d want %d", len(s1), len(so), len(all))
+							return
+						}
+						r.SubRNSScalar(s1, s2, so)
+						for i, q := range all {
+							if s1[i] != v%q || so[i] != ref.SubMod(v%q, 12345%q, q) {
+								c.Fail("C01/ringqp/SubRNSScalar", "v=%d modulus %d", v, q)
+								return
+							}
+						}
+						// Montgomery product and inverse: (v·R)^-1 · v = 1·... checked through MulRNSScalar
+						m := r.NewRNSScalar()
+						for i, q := range all {
+							m[i] = mm(v%q, ref.Pow2Mod(64, q), q)
+						}
+						r.MulRNSScalar(m, s2, so) // (v·R)·12345·R^-1
+						for i, q := range all {
+							if so[i]%q != mm(v%q, 12345%q, q) {
+								c.Fail("C01/ringqp/MulRNSScalar", "v=%d modulus %d", v, q)
+								return
+							}
+						}
+						if v != 0 {
+							inv := append(ring.RNSScalar{}, m...)
+							r.Inverse(inv)
+							r.MulRNSScalar(inv, s1, so) // (v^-1·R)·v·R^-1 = 1 where v is invertible
+							for i, q := range all {
+								if v%q != 0 && so[i]%q != 1 {
+									c.Fail("C01/ringqp/Inverse", "v=%d modulus %d: v^-1·v = %d", v, q, so[i]%q)
+									return
+								}
+							}
+						}
+						o = *acc.CopyNew()
+						r.MulRNSScalarMontgomery(a, m, o)
+						if !chk("MulRNSScalarMontgomery", o, func(q, ri, u, w, ac uint64) uint64 { return mm(u, v%q, q) }, none) {
+							return
+						}
+						evals += 4
+					}
 				}
 			}
 		}
